@@ -209,6 +209,11 @@ def run(ctx, rep) -> None:
     rep.rule("C02.3", "both methods precondition the same input; Shampoo result *= ||graft|| / (||shampoo|| + tiny); grafting accumulator updated whenever grafting is configured")
     rep.rule("C02.4", "no rescaling in warm-up; the phase flag selects which list produces the direction")
     rep.attempt("grafting_table", grafting_table, ctx, rep, "C02.1")
+    from .c01 import _wiring
+    from .c03 import _Proxy
+
+    rep.rule("C02.7", "every per-step hyperparameter and flag of the group step is computed from this step's param group and bound to the formal of the same meaning")
+    rep.attempt("_wiring", _wiring, ctx, _Proxy(rep, "C01.5", "C02.7"))
     from .common import per_group_fresh
 
     rep.rule("C02.6", "the phase switch is per group: each group owns its step counter and grafting state (objects created per group)")
